@@ -24,6 +24,7 @@ GEN = ['CeltTables', 'SilkEncBits']
 SOURCES = ['src/opus_encoder.c', 'src/opus_decoder.c', 'celt/entenc.c', 'celt/entdec.c', 'celt/entcode.c', 'celt/celt_decoder.c',
            'celt/celt_encoder.c', 'celt/bands.c', 'celt/rate.c', 'celt/quant_bands.c', 'silk/dec_API.c', 'silk/enc_API.c']
 REQUIRED_THEOREMS = ['OpusProps.C08Hybrid.opus_frame_lockstep_hybrid_red_partial',
+                     'OpusProps.C08Hybrid.opus_frame_lockstep_hybrid_red_cbr_partial',
                      'OpusProps.C08Hybrid.opus_frame_lockstep_hybrid_nored_flag',
                      'OpusProps.C08Hybrid.hybrid_red_main_part_roundtrip',
                      'OpusProps.C08Hybrid.hybrid_red_gate_cbr', 'OpusProps.C08Hybrid.hybrid_red_sane_cbr']
@@ -51,8 +52,11 @@ NOT_COVERED = [
     'real encoder\'s packets and, model-free, the real encoder\'s final range with the real decoder\'s',
     'silent redundancy frames, DTX, the "SILK busted its target" fallback, multi-frame (code 1..3) hybrid packets (the tie uses code-0 '
     'packets; repacketised hybrid frames decode frame by frame through the same opus_decode_frame)',
-    'hsane (ec_tell behind the signalling <= 8*len of the main part) and the length contract hgate are hypotheses in VBR; '
-    'hybrid_red_gate_cbr derives hgate from the encoder\'s own budget test when the CELT encoder does not shrink the buffer (CBR)',
+    'the length contracts hgate (ec_tell_before + 37 <= 8*(ret + redundancy_bytes)) and hsane (ec_tell behind the signalling <= 8*ret) are '
+    'hypotheses of opus_frame_lockstep_hybrid_red_partial when the CELT encoder shrinks the main part (VBR); for CBR '
+    'opus_frame_lockstep_hybrid_red_cbr_partial derives both from the encoder\'s budget test and its max_redundancy bound (the IMAX(2, .) '
+    'override of a max_redundancy < 2 is outside: then the encoder may leave fewer bits than the signalling needs and the decoder drops '
+    'the redundancy, opus_decoder.c:492-497)',
 ]
 ASSUMPTIONS = [
     'DSP decisions (SILK indices / pulses, CELT decisions, redundancy_bytes) are inputs of the encoder models',
